@@ -7,7 +7,7 @@
    declared footprints and that asyncio eventually runs every enabled step are assumptions,
    exercised by the schedule exploration of the check (with the linearizability oracle
    Model/Linear.v over the sequential model of C01-C05). *)
-From Asimap Require Import Base.Res Spec.SetSem Model.Mbox Model.Sched Model.Phases Proofs.MboxInv Proofs.MboxOut Proofs.SchedP Proofs.PhasesP Proofs.PhasesTie.
+From Asimap Require Import Base.Res Spec.SetSem Model.Mbox Model.Sched Model.Phases Proofs.MboxInv Proofs.MboxOut Proofs.SchedP Proofs.PhasesP Proofs.PhasesTie Proofs.PhasesTie2.
 Open Scope Z_scope.
 
 Theorem C10_conflict_sound : forall running deleted c r delr,
@@ -74,6 +74,13 @@ Theorem C10_atomic_is_arrive_then_execute : forall w s c,
   snd (step w (to_op s c)) = (let '(w1, o1, go) := arrive w s c in if go then o1 ++ snd (execute w1 s c) else o1).
 Proof. exact step_is_arrive_then_execute. Qed.
 Print Assumptions C10_atomic_is_arrive_then_execute.
+(* ... and leave the same world: equal when the command is carried out or refused; when the message set is out of
+   range (BAD) equal up to a second flush of an already empty queue, which changes no message, counter or session entry *)
+Theorem C10_atomic_world_is_arrive_then_execute : forall w s c,
+  winv w ->
+  world_same (let '(w1, _, go) := arrive w s c in if go then fst (execute w1 s c) else w1) (fst (step w (to_op s c))).
+Proof. exact step_world_is_arrive_then_execute. Qed.
+Print Assumptions C10_atomic_world_is_arrive_then_execute.
 (* sharpness: the history that made the second gate necessary.  Gated: refused, view legal.  Ungated (the code before
    commit 1902352): "* 2 FETCH" for UID 3 at a position the client knows as UID 2, an EXPUNGE inside a non-UID FETCH *)
 Example C10_example_gate_after_waiting :
